@@ -502,6 +502,43 @@ fn main() {
 			}
 		}
 
+		// ---- forged clear header: the header of an encrypted pack is not covered by the encryption; somebody relaying
+		// the message plants a sender address of their own there (binary: optional field + flag bit, JSON: a "sender"
+		// member, armor: re-armored with a fresh check code).  A recipient that opens it must still be told the
+		// sender sealed inside the ciphertext, and get the original slate - or be refused.
+		if enc {
+			if let (Some(spc), Some(first)) = (sp.as_ref(), rnames.first()) {
+				let fk = ctx.keys[first].clone();
+				// an address that is neither the sender's nor the opener's
+				let planted = ctx.keys.values().find(|k| Some(&k.name) != snd.as_ref().map(|s| &s.name) && k.name != fk.name).map(|k| k.addr.clone());
+				if let Some(pl) = planted {
+					let mut forged = spc.clone();
+					forged.sender = Some(pl);
+					let dk: Option<[u8; 32]> =
+						owner::get_slatepack_secret_key(ctx.world.inst(&fk.wallet), ctx.world.mask(&fk.wallet).as_ref(), fk.idx).ok().map(|k| k.to_bytes());
+					let forms: Vec<(&str, Option<Vec<u8>>)> = vec![
+						("bin", byte_ser::to_bytes(&SlatepackBin(forged.clone())).ok()),
+						("json", serde_json::to_string(&forged).ok().map(|j| j.into_bytes())),
+						("armor", libwallet::SlatepackArmor::encode(&forged).ok().map(|a| a.into_bytes())),
+					];
+					for (form, data) in forms {
+						if let Some(data) = data {
+							let dkc = dk.and_then(|b| ed25519_dalek::SecretKey::from_bytes(&b).ok());
+							let mut got_sender = String::new();
+							let o = run_open(|| {
+								let p = Slatepacker::new(SlatepackerArgs { sender: None, recipients: vec![], dec_key: dkc.as_ref() });
+								let sp = p.deser_slatepack(&data, true)?;
+								got_sender = key_name_of(&ctx, &sp.sender);
+								p.get_slate(&sp)
+							});
+							lines.push(json!({"ev": "forged_open", "c": cid, "form": form, "edit": "header_sender", "by": [first], "res": o.res,
+								"same": o.bin.as_ref().map(|b| **b == **orig_bin).unwrap_or(false), "sender": got_sender}).to_string());
+						}
+					}
+				}
+			}
+		}
+
 		// ---- edit sweeps (executed below, in parallel)
 		let first_r = rnames.first().map(|n| ctx.keys[n].clone());
 		let (ow, oidx) = match &first_r { Some(k) => (k.wallet.clone(), vec![k.idx]), None => ("w3".to_string(), vec![]) };
